@@ -18,6 +18,7 @@ func TestMiddleware(t *testing.T) {
 		mwAdmission(t, h)
 		mwEvents(t, h)
 		nspDuringMiddleware(t, h, "C12") // while the chain runs: not listed, not reached by broadcasts
+		mwOverlapping(t, h)
 	})
 }
 
@@ -345,6 +346,67 @@ func mwEvents(t *testing.T, h *H) {
 			}
 			if sg.name == "int,ack" && allOK && acked != "acked" {
 				h.Violation("C12", "an accepted event's acknowledgement does not reach the emitter", desc, "ack: "+acked)
+			}
+		}
+	}
+}
+
+// two events of one socket inside the chain at once (each packet is dispatched on a goroutine of its own): the first middleware
+// holds "admin" for 100 ms while "chat" passes; the second middleware rejects "admin" by name. Every middleware sees each event's own
+// name and arguments, and the rejected event never reaches its handler.
+func mwOverlapping(t *testing.T, h *H) {
+	for _, tr := range []string{"polling", "websocket"} {
+		var mu sync.Mutex
+		var seen []string
+		adminRan, chatRan := 0, 0
+		synctest.Test(t, func(t *testing.T) {
+			r := newRig(nil)
+			r.server.OnConnection(func(s sio.ServerSocket) {
+				s.Use(func(eventName string, v ...any) error {
+					if eventName == "admin" {
+						time.Sleep(100 * time.Millisecond)
+					}
+					return nil
+				})
+				s.Use(func(eventName string, v ...any) error {
+					mu.Lock()
+					seen = append(seen, fmt.Sprintf("%s%v", eventName, v))
+					mu.Unlock()
+					if eventName == "admin" {
+						return errors.New("admin events are not allowed")
+					}
+					return nil
+				})
+				s.OnEvent("admin", func(cmd string) { mu.Lock(); adminRan++; mu.Unlock() })
+				s.OnEvent("chat", func(msg string) { mu.Lock(); chatRan++; mu.Unlock() })
+			})
+			m := r.manager([]string{tr}, &sio.ManagerConfig{NoReconnection: true})
+			c := m.Socket("/", nil)
+			c.Connect()
+			time.Sleep(500 * time.Millisecond)
+			for k := 0; k < 5; k++ {
+				c.Emit("admin", "drop-db")
+				time.Sleep(30 * time.Millisecond)
+				c.Emit("chat", "hello")
+				time.Sleep(300 * time.Millisecond)
+			}
+			time.Sleep(time.Second)
+			r.shutdown(m)
+		})
+		desc := fmt.Sprintf("transport=%s: five times an \"admin\" event held by the first middleware for 100 ms while a \"chat\" event passes; the second middleware rejects \"admin\"", tr)
+		h.Eval()
+		h.NonTrivial(desc)
+		h.Dist("events.overlapping")
+		if adminRan != 0 {
+			h.Violation("C12", "an event a middleware rejected reaches the handler", desc, fmt.Sprintf("the admin handler ran %d times; the second middleware saw %v", adminRan, seen))
+		}
+		if chatRan != 5 {
+			h.Violation("C12", "an event every middleware accepted does not reach its handler", desc, fmt.Sprintf("the chat handler ran %d times (5 expected); the second middleware saw %v", chatRan, seen))
+		}
+		for _, sv := range seen {
+			if sv != "admin[drop-db]" && sv != "chat[hello]" {
+				h.Violation("C12", "an event middleware does not see the event's name and arguments", desc, fmt.Sprintf("the second middleware saw %q", sv))
+				break
 			}
 		}
 	}
